@@ -298,6 +298,9 @@ func (d *c12DB) checkFault(f *c12Fault, opt kvh.Opt) (fail *kvh.Fail) {
 		return nil // detected: an error is a legal outcome
 	}
 	defer func() {
+		if db == nil {
+			return
+		}
 		func() {
 			defer func() { _ = recover() }()
 			_ = db.Close()
@@ -355,6 +358,11 @@ func (d *c12DB) checkFault(f *c12Fault, opt kvh.Opt) (fail *kvh.Fail) {
 			}
 		}
 		if clean && sameMap(got, d.states[j]) && len(listed) == len(d.states[j]) {
+			// tolerated; what was accepted must still survive one more write and a clean restart
+			if fail := d.continueAfterOpen(db, opt, got, where); fail != nil {
+				return fail
+			}
+			db = nil
 			return nil
 		}
 	}
@@ -384,6 +392,15 @@ func (d *c12DB) checkFault(f *c12Fault, opt kvh.Opt) (fail *kvh.Fail) {
 			return &kvh.Fail{Sig: "live-key-silently-lost", Msg: fmt.Sprintf("%s: ListKeys misses the live key %q", where, k)}
 		}
 	}
+	if f.Mode == "before-open" {
+		// whatever this Open accepted must stay true: one more write, a clean restart, and the same mapping (plus that
+		// write) must come back - a recovery that leaves half of a damaged record behind poisons later appends
+		if fail := d.continueAfterOpen(db, opt, got, where); fail != nil {
+			return fail
+		}
+		db = nil
+		return nil
+	}
 	var foldBad *kvh.Fail
 	_ = db.Fold(func(k, v []byte) bool {
 		want, live := d.model[string(k)]
@@ -394,6 +411,51 @@ func (d *c12DB) checkFault(f *c12Fault, opt kvh.Opt) (fail *kvh.Fail) {
 		return true
 	})
 	return foldBad
+}
+
+// continueAfterOpen: Put, Close, Open; the mapping must be what the first Open showed plus the new write.
+// Reads that failed with an error in the first Open are allowed to fail again (or to succeed with the value
+// the reference knows); reads that succeeded must succeed with the same bytes.
+func (d *c12DB) continueAfterOpen(db *kv.DB, opt kvh.Opt, got map[string][]byte, where string) *kvh.Fail {
+	cv := kvh.GenValue(4242, 11)
+	if err := db.Put([]byte("~continuation"), cv); err != nil {
+		_ = db.Close()
+		return nil // an error is a legal outcome
+	}
+	if err := db.Close(); err != nil {
+		return nil
+	}
+	db2, err := kv.Open(opt.KV(filepath.Join(d.work, "db")))
+	if err != nil {
+		return nil // failing with an error is a legal outcome under C12 (C03 owns recoverability after an interrupted append)
+	}
+	defer func() {
+		func() {
+			defer func() { _ = recover() }()
+			_ = db2.Close()
+		}()
+	}()
+	v, err := db2.Get([]byte("~continuation"))
+	if err != nil || string(v) != string(cv) {
+		return &kvh.Fail{Sig: "write-after-damaged-open-lost", Msg: fmt.Sprintf("%s: a Put acknowledged after the Open of the damaged directory reads back as (%s, %v) after a clean restart", where, kvh.ValueDigest(v), err)}
+	}
+	for k, want := range got {
+		v, err := db2.Get([]byte(k))
+		if err != nil {
+			return &kvh.Fail{Sig: "value-changes-after-restart-of-damaged-db", Msg: fmt.Sprintf("%s: Get(%q) succeeded after the first Open; after one write and a clean restart it fails: %v", where, k, err)}
+		}
+		if !(len(v) == 0 && len(want) == 0) && string(v) != string(want) {
+			return &kvh.Fail{Sig: "damaged-bytes-served-as-data", Msg: fmt.Sprintf("%s: Get(%q) returned %s after the first Open and %s after one write and a clean restart", where, k, kvh.ValueDigest(want), kvh.ValueDigest(v))}
+		}
+	}
+	for _, k := range db2.ListKeys() {
+		if _, ok := got[string(k)]; !ok && string(k) != "~continuation" {
+			if _, live := d.model[string(k)]; !live {
+				return &kvh.Fail{Sig: "deleted-key-resurrected", Msg: fmt.Sprintf("%s: after one write and a clean restart ListKeys contains %q, which is not live", where, k)}
+			}
+		}
+	}
+	return nil
 }
 
 func tail3000(b []byte) string {
@@ -494,7 +556,10 @@ func c12Run(t *rapid.T, st *kvh.Stats) {
 	c.Opt.Shards = kvh.Pick(t, []int{1, 2, 16}, "shards") // opening is the hot path here
 	pool := kvh.GenKeyPool(t, false)
 	n := 3 + kvh.U(t, 10, "nops")
-	withBig := kvh.Pct(t, 14, "big")
+	withBig := kvh.Pct(t, 25, "big")
+	if withBig && kvh.Pct(t, 70, "bigsamefile") {
+		c.Opt.FileSize = 1 << 20 // the multi-block record and what follows share the newest file
+	}
 	bigAt := 1 + kvh.U(t, 2, "bigat")
 	bigBlocks := 1 + kvh.U(t, 2, "bigblocks")
 	i := 0
